@@ -747,6 +747,38 @@ pub fn build(full_name: &str, level: u8) -> Option<Scenario> {
                     Action::HoldApply(false),
                 ];
             }
+            if n.contains("-promo") {
+                // voters {1}, learner {2}, check_quorum: leader 1 promoted node 2 (committed and
+                // applied on its own); node 2 holds the entry but never learnt that it is
+                // committed, so in its own view it is still a learner; the link is cut and the
+                // leader ticks on (it will fail its quorum check and step down)
+                s = Scenario { nodes: s.nodes[..2].to_vec(), voters: vec![1], learners: vec![2], ..s };
+                for nd in s.nodes.iter_mut() {
+                    nd.check_quorum = true;
+                    nd.apply_lag = false;
+                }
+                s.cc_menu = vec![CcSpec::V1(0, 2)];
+                s.prefix = vec![
+                    Action::Timeout(1),
+                    Action::Settle,
+                    Action::ProposeCc(1, 0),
+                    Action::Settle0(1),
+                    Action::Deliver(1, 2),
+                    Action::Settle0(2),
+                    Action::DropAll,
+                ];
+                s.clients_at = vec![];
+                s.timeoutable = vec![];
+                s.crashable = vec![];
+            }
+            if n.contains("-jd") {
+                // the group sits in an explicit joint configuration that demotes voter 3:
+                // voters (1 2)&&(1 2 3), learners_next (3); nodes crash and restart there
+                s.cc_menu = vec![CcSpec::V2(2, vec![(2, 3)]), CcSpec::V2(0, vec![])];
+                s.prefix = vec![Action::Timeout(1), Action::Settle, Action::ProposeCc(1, 0), Action::Settle];
+                s.clients_at = vec![1];
+                s.timeoutable = vec![2];
+            }
             if n.contains("-al") {
                 // only the leader's application lags
                 for (k, nd) in s.nodes.iter_mut().enumerate() {
@@ -780,6 +812,9 @@ pub fn build(full_name: &str, level: u8) -> Option<Scenario> {
                 s.transfer_targets = vec![2];
             }
             let (ccs, props, to, crashes, mt, mi, xf, lazy) = match l {
+                0 | 1 if n.contains("-promo") => (0, 0, 0, 0, 3, 6, 0, 1),
+                0 if n.contains("-jd") => (0, 0, 0, 1, 2, 6, 0, 1),
+                1 if n.contains("-jd") => (1, 0, 1, 1, 3, 6, 0, 1),
                 0 if n.contains("-joint") => (2, 0, 0, 0, 2, 6, 0, 1),
                 0 if c4 => (0, 0, 1, 1, 3, 6, 0, 1),
                 1 if c4 => (0, 0, 2, 1, 3, 6, 0, 1),
@@ -812,6 +847,9 @@ pub fn build(full_name: &str, level: u8) -> Option<Scenario> {
                 if two {
                     c.reads = 1;
                     c.beats = l as u8;
+                }
+                if n.contains("-promo") {
+                    c.beats = 8;
                 }
             });
             if two && l == 0 {
@@ -1062,6 +1100,52 @@ pub fn build(full_name: &str, level: u8) -> Option<Scenario> {
                     c.props = 0;
                     c.beats = (l as u8).min(2);
                     c.drops = (l as u8).min(1);
+                });
+            }
+            if n.contains("-five") {
+                // 5 voters. Leader 1 (term 1) has a read pending whose heartbeat reached node 3
+                // only; that acknowledgement is still in flight. Nodes 3,4,5 then elected node 3
+                // (term 2), which committed its no-op. The stale leader 1 reads again.
+                let base = Scenario::new(name, 5);
+                s = Scenario { nodes: base.nodes, voters: base.voters, ..s };
+                s.prefix = vec![
+                    Action::Timeout(1),
+                    Action::Settle,
+                    Action::ReadIndex(1),
+                    Action::Settle0(1),
+                    Action::Deliver(1, 3),
+                    Action::Settle0(3),
+                    Action::Isolate(2),
+                    Action::Isolate(4),
+                    Action::Isolate(5),
+                    Action::Timeout(3),
+                    Action::Settle0(3),
+                    Action::Deliver(3, 4),
+                    Action::Settle0(4),
+                    Action::Deliver(3, 5),
+                    Action::Settle0(5),
+                    Action::Deliver(4, 3),
+                    Action::Settle0(3),
+                    Action::Deliver(5, 3),
+                    Action::Settle0(3),
+                    Action::Deliver(3, 4),
+                    Action::Settle0(4),
+                    Action::Deliver(3, 5),
+                    Action::Settle0(5),
+                    Action::Deliver(4, 3),
+                    Action::Settle0(3),
+                    Action::Deliver(5, 3),
+                    Action::Settle0(3),
+                    Action::Isolate(4),
+                    Action::Isolate(5),
+                ];
+                s.clients_at = vec![1];
+                s.timeoutable = vec![];
+                s.crashable = vec![];
+                s.fault_types = vec![];
+                s.caps = caps(|c| {
+                    c.reads = 1;
+                    c.beats = l as u8;
                 });
             }
             if n.contains("-rm1") {
